@@ -374,15 +374,16 @@ class Ctx:
         env.setdefault("GOCACHE", os.path.expanduser("~/.cache/go-build"))
         return env
 
-    def build_driver(self, race=False):
-        key = "race" if race else "plain"
+    def build_driver(self, race=False, cmd_name="vdrv"):
+        """Builds harness/cmd/<cmd_name> with -tags verif against /repo's working tree."""
+        key = cmd_name + ("-race" if race else "-plain")
         if key in self._driver:
             return self._driver[key]
-        out = self.path("bin", "vdrv-" + key)
+        out = self.path("bin", key)
         cmd = ["go", "build", "-tags", "verif", "-o", out]
         if race:
             cmd.insert(2, "-race")
-        cmd.append("./cmd/vdrv")
+        cmd.append("./cmd/" + cmd_name)
         t0 = time.time()
         p = subprocess.run(cmd, cwd=HARNESS, env=self.go_env(), stdout=subprocess.PIPE, stderr=subprocess.STDOUT)
         if p.returncode != 0:
@@ -406,9 +407,9 @@ class Ctx:
         self._driver["proxybin"] = out
         return out
 
-    def drv(self, args, race=False, timeout=900, stdin=None, env=None, check=True):
-        """Run the driver; returns (rc, stdout, stderr)."""
-        exe = self.build_driver(race)
+    def drv(self, args, race=False, timeout=900, stdin=None, env=None, check=True, cmd_name="vdrv"):
+        """Run the driver harness/cmd/<cmd_name>; returns (rc, stdout, stderr)."""
+        exe = self.build_driver(race, cmd_name)
         e = dict(os.environ)
         e["VERIF_SEED"] = str(self.seed)
         e["VERIF_TIER"] = self.tier
